@@ -45,6 +45,42 @@ def run_cancel(rep, count, mode_args, with_invalid):
                 parts = [rnd.choice(stmts) for _ in range(n)]
                 script = ";\n".join(parts)
                 f.write("\t".join(x.encode("utf-8", "surrogateescape").hex() for x in [script] + parts) + "\n")
+    if mode_args == ["-semis"]:
+        # C06: statements of the verification grammar (with --gaps: also valid ClickHouse forms the current parser may reject;
+        # only statements that parse on their own WITHOUT error are used) before and after another statement, and in pairs:
+        # end of input and ';' must be the same statement boundary for every statement kind
+        import random
+        import re
+        import searchcommon
+        rnd = random.Random(rep.seed + 2)
+        ng = 4000 if count <= 5000 else 60000
+        gcmd = ["python3", os.path.join(verif.ROOT, "checks", "gen_sql_grammar.py"), str(rep.seed), str(ng)]
+        rcg, outg = verif.sh(gcmd + ["--gaps"], timeout=1200)
+        if rcg != 0:
+            rcg, outg = verif.sh(gcmd, timeout=1200)
+        cand = [l for l in outg.splitlines() if l.strip() and ";" not in l and not re.search(r"(?i)\binsert\b.*\b(format|values)\b", l)]
+        gfile = os.path.join(verif.BUILD, "script_grammar_%s.txt" % rep.pid)
+        with open(gfile, "w") as f:
+            for l in cand:
+                f.write(l.encode("utf-8", "surrogateescape").hex() + "\n")
+        verif.build_go(("psearch",))
+        verif.parallel_map_files([searchcommon.PSEARCH, "run"], gfile, gfile + ".out", timeout=3000)
+        okst = []
+        with open(gfile) as fc, open(gfile + ".out") as fo:
+            for c, o in zip(fc, fo):
+                if o.startswith("ok\t"):
+                    okst.append(c.strip())
+        one = "SELECT 1".encode().hex()
+        sep = ["\n; ", "\n;", "\n;\n", "\n ;\n-- c\n"]     # a statement may end in a line comment: the separator starts on a new line
+        with open(cases, "a") as f:
+            for i, h in enumerate(okst):
+                sp = sep[i % len(sep)].encode().hex()
+                f.write(h + sp + one + "\t" + h + "\t" + one + "\n")
+                f.write(one + sp + h + "\t" + one + "\t" + h + "\n")
+                if i % 3 == 0 and len(okst) > 1:
+                    h2 = okst[rnd.randrange(len(okst))]
+                    f.write(h + sp + h2 + "\t" + h + "\t" + h2 + "\n")
+        rep.coverage["grammar_boundary_probes"] = {"grammar_statements": len(cand), "accepted_alone": len(okst)}
     outp = cases + ".out"
     rc, err = verif.parallel_map_files([os.path.join(verif.BUILD, "cancel")] + mode_args, cases, outp, timeout=3000)
     res = {"scripts": 0, "runs": 0, "violations": [], "rc": rc, "err": err[-500:], "samples": [], "multi": 0}
